@@ -39,6 +39,7 @@ import (
 	"github.com/dappledger/AnnChain/eth/ethdb"
 	"github.com/dappledger/AnnChain/eth/params"
 	"github.com/dappledger/AnnChain/eth/rlp"
+	"github.com/dappledger/AnnChain/gemmill/go-wire"
 	"github.com/dappledger/AnnChain/gemmill/modules/go-log"
 	"github.com/dappledger/AnnChain/gemmill/modules/go-merkle"
 	gtypes "github.com/dappledger/AnnChain/gemmill/types"
@@ -122,6 +123,15 @@ type LastBlockInfo struct {
 	Height  int64
 	AppHash []byte
 }
+
+// LastReceiptsInfo is saved immediately before LastBlockInfo, so that after a crash Info() can still
+// report the ReceiptsHash that OnCommit returned for the last committed block.
+type LastReceiptsInfo struct {
+	Height       int64
+	ReceiptsHash []byte
+}
+
+var lastReceiptsKey = []byte("lastreceipts")
 
 func NewEVMApp(config *viper.Viper) (*EVMApp, error) {
 	app := &EVMApp{
@@ -405,12 +415,16 @@ func (app *EVMApp) OnCommit(height, round int64, block *gtypes.Block) (interface
 	}
 	app.stateMtx.Unlock()
 
-	app.SaveLastBlock(LastBlockInfo{Height: height, AppHash: appHash.Bytes()})
-
+	// Receipts, kv records and their hash are made durable BEFORE the lastblock record: lastblock is the
+	// commit point of the application, a crash before it leaves the application at height-1 and the block is
+	// simply executed again, a crash after it finds everything the block produced.
 	rHash, err := app.SaveReceipts()
 	if err != nil {
 		log.Error("application save receipts", zap.Error(err), zap.Int64("height", block.Height))
 	}
+	app.SaveLastBlockByKey(lastReceiptsKey, LastReceiptsInfo{Height: height, ReceiptsHash: rHash})
+
+	app.SaveLastBlock(LastBlockInfo{Height: height, AppHash: appHash.Bytes()})
 
 	app.receipts = nil
 	app.kvs = nil
@@ -525,6 +539,14 @@ func (app *EVMApp) Info() (resInfo gtypes.ResultInfo) {
 
 	resInfo.LastBlockAppHash = lb.AppHash
 	resInfo.LastBlockHeight = lb.Height
+	if buf := app.Database.Get(lastReceiptsKey); len(buf) != 0 {
+		lr := &LastReceiptsInfo{}
+		r, n, err := bytes.NewReader(buf), new(int), new(error)
+		wire.ReadBinaryPtr(lr, r, 0, n, err)
+		if *err == nil && lr.Height == lb.Height {
+			resInfo.LastBlockReceiptsHash = lr.ReceiptsHash
+		}
+	}
 	resInfo.Version = "alpha 0.2"
 	resInfo.Data = "default app with evm-1.5.9"
 	return
